@@ -383,7 +383,7 @@ func c18Replay(kind string, raw json.RawMessage) int {
 	if err := json.Unmarshal(raw, &c); nil != err {
 		return 2
 	}
-	if "from-seam" == c.Class {
+	if strings.HasPrefix(c.Class, "from-seam") {
 		fmt.Println("findings of the Converter.From seam are replayed by re-running ./run C18 quick; the sources are named in the artefact")
 		return 2
 	}
@@ -450,20 +450,56 @@ func c18FromSeam(r *ev.Result, base string) {
 		cases []c18Case
 		funcs [][]byte
 	)
-	for _, srcs := range seqs {
-		v := func(sig, what string) {
-			r.Violate(ev.Violation{Signature: "from/" + sig, What: fmt.Sprintf("sources %q: %s", srcs, what), Kind: "c18from", Replay: map[string]any{"sources": srcs}})
+	/* The converters: the default one, a zero-value one (documented as
+	usable: no filters), and one default converter that is kept and used for
+	every sequence in turn (the program keeps one for Ctrl+I) while the
+	content of a file changes between its calls. */
+	kept := shellfuncsfile.NewDefaultConverter()
+	kept.FS = mfs
+	kept.AddListFunction = true
+	type job struct {
+		kind string
+		srcs []string
+	}
+	var jobs []job
+	for _, kind := range []string{"default", "zero-value", "kept"} {
+		for _, srcs := range seqs {
+			jobs = append(jobs, job{kind, srcs})
 		}
-		plain := shellfuncsfile.NewDefaultConverter()
-		plain.FS = mfs
+	}
+	flip := 0
+	for _, j := range jobs {
+		srcs := j.srcs
+		v := func(sig, what string) {
+			r.Violate(ev.Violation{Signature: "from/" + sig + "/" + j.kind, What: fmt.Sprintf("%s converter, sources %q: %s", j.kind, srcs, what), Kind: "c18from", Replay: map[string]any{"sources": srcs, "converter": j.kind}})
+		}
+		mk := func() *shellfuncsfile.Converter {
+			c := shellfuncsfile.NewDefaultConverter()
+			if "zero-value" == j.kind {
+				c = new(shellfuncsfile.Converter)
+			}
+			c.FS = mfs
+			return c
+		}
+		if "kept" == j.kind {
+			/* The kept converter has seen these very sources a moment
+			ago; then a file of the directory is rewritten in place (same
+			name, no modification time). */
+			kept.From(srcs...)
+			flip++
+			mfs["dir/1.sh"] = &fstest.MapFile{Data: []byte(fmt.Sprintf("# TABDOC: one_%d rewritten %d times\none() { :; }", flip%3, flip%3)), Mode: 0o644}
+		}
+		plain := mk()
 		p, err := plain.From(srcs...)
 		if nil != err {
 			v("conversion-failed", err.Error())
 			continue
 		}
-		listed := shellfuncsfile.NewDefaultConverter()
-		listed.FS = mfs
+		listed := mk()
 		listed.AddListFunction = true
+		if "kept" == j.kind {
+			listed = kept
+		}
 		o, err := listed.From(srcs...)
 		if nil != err {
 			v("conversion-failed", err.Error())
@@ -479,7 +515,7 @@ func c18FromSeam(r *ev.Result, base string) {
 			continue
 		}
 		/* The reference: the TABDOC lines of the payload as it is. */
-		c := c18Case{Class: "from-seam", Sources: srcs, Lines: []string{}}
+		c := c18Case{Class: "from-seam/" + j.kind, Sources: srcs, Lines: []string{}}
 		for _, l := range strings.Split(string(p), "\n") {
 			if strings.HasPrefix(l, shellfuncsfile.DocPrefix) {
 				c.Lines = append(c.Lines, strings.TrimPrefix(l, shellfuncsfile.DocPrefix))
@@ -502,5 +538,5 @@ func c18FromSeam(r *ev.Result, base string) {
 		r.Evaluations += len(cases)
 		r.Distinct += len(cases)
 	}
-	r.Set("from_seam_source_sequences", len(seqs))
+	r.Set("from_seam_source_sequences", len(jobs))
 }
